@@ -232,7 +232,11 @@ func judgeC02Fresh(c C02FreshCase) *Fail {
 
 // TestC02Corpus is the post phase: run in K fresh processes, each deciding the
 // whole corpus (written by the rapid phase's processes) in a different order.
-func TestC02Corpus(t *testing.T) {
+func TestC02Corpus(t *testing.T) { runCorpusPhase(t, "C02", "C02fresh") }
+
+// runCorpusPhase: this fresh process decides every request the rapid phase's processes recorded, in its own order,
+// and must reproduce the recorded outcomes (whatever those processes had decided before).
+func runCorpusPhase(t *testing.T, prop, check string) {
 	if os.Getenv("VERIF_PHASE") != "post" {
 		t.Skip("post phase only")
 	}
@@ -255,15 +259,15 @@ func TestC02Corpus(t *testing.T) {
 	for i := 0; i < n; i++ {
 		e := corpus[idx]
 		idx = (idx + stride) % n
-		st.inc("evaluations:C02fresh")
+		st.inc("evaluations:" + check)
 		c := C02FreshCase{Req: e.Req, Expected: e.Out}
 		if f := judgeC02Fresh(c); f != nil {
-			writeReplay("C02", "C02fresh", c, f)
-			t.Fatalf("VIOLATION-CANDIDATE property=C02 check=C02fresh rule=%s: %s", f.Rule, f.Detail)
+			writeReplay(prop, check, c, f)
+			t.Fatalf("VIOLATION-CANDIDATE property=%s check=%s rule=%s: %s", prop, check, f.Rule, f.Detail)
 		}
 	}
 	// thorough: the same corpus through the real server process (one long-lived server; byte equality of 200 bodies)
-	if os.Getenv("VERIF_TIER") == "thorough" && k == 0 && os.Getenv("VERIF_SERVER_BIN") != "" {
+	if prop == "C02" && os.Getenv("VERIF_TIER") == "thorough" && k == 0 && os.Getenv("VERIF_SERVER_BIN") != "" {
 		if err := theServer.ensure(); err != nil {
 			t.Fatalf("cannot start the server: %v", err)
 		}
@@ -289,8 +293,8 @@ func TestC02Corpus(t *testing.T) {
 			st.inc("C02:http-server-cases")
 		}
 	}
-	st.add("C02:fresh-process-cases", int64(n))
-	fmt.Printf("C02 corpus process %d: %d cases identical\n", k, n)
+	st.add(prop+":fresh-process-cases", int64(n))
+	fmt.Printf("%s corpus process %d: %d cases identical\n", prop, k, n)
 }
 
 func gcd(a, b int) int {
